@@ -111,10 +111,10 @@ func (e *Engine) slots(t types.Type) []Slot {
 				rec(u.Field(i).Type(), join(u.Field(i).Name()))
 			}
 		case *types.Slice:
-			out = append(out, Slot{join("$rid"), SInt, nil}, Slot{join("$off"), e.ar.idxSort(), nil},
+			out = append(out, Slot{join("$rid"), e.rs(), nil}, Slot{join("$off"), e.ar.idxSort(), nil},
 				Slot{join("$len"), e.ar.idxSort(), nil}, Slot{join("$cap"), e.ar.idxSort(), nil})
 		case *types.Pointer:
-			out = append(out, Slot{join("$prid"), SInt, nil}, Slot{join("$pidx"), e.ar.idxSort(), nil})
+			out = append(out, Slot{join("$prid"), e.rs(), nil}, Slot{join("$pidx"), e.ar.idxSort(), nil})
 		case *types.Array:
 			es := e.ar.scalarSortOrEmpty(u.Elem())
 			if es == "" {
@@ -152,13 +152,13 @@ func (e *Engine) build(t types.Type, next func(s Slot) Term) Val {
 			}
 			return sv
 		case *types.Slice:
-			r := next(Slot{join("$rid"), SInt, nil})
+			r := next(Slot{join("$rid"), e.rs(), nil})
 			o := next(Slot{join("$off"), e.ar.idxSort(), nil})
 			l := next(Slot{join("$len"), e.ar.idxSort(), nil})
 			c := next(Slot{join("$cap"), e.ar.idxSort(), nil})
 			return SliceV{Ty: t, Rid: r, Off: o, Len: l, Cap: c}
 		case *types.Pointer:
-			r := next(Slot{join("$prid"), SInt, nil})
+			r := next(Slot{join("$prid"), e.rs(), nil})
 			i := next(Slot{join("$pidx"), e.ar.idxSort(), nil})
 			return PtrV{Ty: t, Rid: r, Idx: i, Root: u.Elem()}
 		case *types.Array:
